@@ -85,6 +85,20 @@ type Atom struct {
 	Kind string
 	A, B *regexp.Regexp
 	Pol  bool
+	Req  [][]Atom // conjunction-by-dominance: the testing block must itself pass each of these disjunctions
+}
+
+// With returns the atom restricted to tests that are dominated by the given guards.
+func (a Atom) With(req ...[]Atom) Atom {
+	a.Req = append(append([][]Atom{}, a.Req...), req...)
+	for _, q := range req {
+		var ds []string
+		for _, x := range q {
+			ds = append(ds, x.Desc)
+		}
+		a.Desc += " [given " + strings.Join(ds, " or ") + "]"
+	}
+	return a
 }
 
 // Glob compiles a glob ('*' = any substring, everything else literal).
@@ -135,96 +149,12 @@ type Checker struct {
 	Res *term.Resolver
 }
 
-// flagTrueOK: is every way for the boolean φ to become `want` covered by the cut?
-func (c *Checker) flagOK(phi *ssa.Phi, want bool, atoms []Atom, cut map[cfgx.Edge]bool, visiting map[*ssa.Phi]bool) bool {
-	if visiting[phi] {
-		return true // loop-carried: justified by the other incoming edges
-	}
-	visiting[phi] = true
-	defer delete(visiting, phi)
-	blk := phi.Block()
-	for i, e := range phi.Edges {
-		pred := blk.Preds[i]
-		switch x := e.(type) {
-		case *ssa.Const:
-			if x.Value == nil || x.Value.Kind() != constant.Bool {
-				return false
-			}
-			if constant.BoolVal(x.Value) != want {
-				continue
-			}
-			// the edge pred->blk must be unreachable without passing the cut
-			if cut[cfgx.Edge{From: pred, To: blk}] {
-				continue
-			}
-			if c.reachable(pred, cut) {
-				return false
-			}
-		case *ssa.Phi:
-			if !c.flagOK(x, want, atoms, cut, visiting) {
-				// the inner flag may be `want` without justification; still fine if this edge is cut off
-				if cut[cfgx.Edge{From: pred, To: blk}] || !c.reachable(pred, cut) {
-					continue
-				}
-				return false
-			}
-		default:
-			// a computed boolean flowing into the flag: flag == want via this edge iff value == want
-			p, pol, ok := CondPred(c.Res, e)
-			if ok {
-				m := false
-				for _, a := range atoms {
-					if a.matches(p, pol == want) {
-						m = true
-					}
-				}
-				if m {
-					continue
-				}
-			}
-			if cut[cfgx.Edge{From: pred, To: blk}] || !c.reachable(pred, cut) {
-				continue
-			}
-			return false
-		}
-	}
-	return true
-}
-
-func (c *Checker) reachable(b *ssa.BasicBlock, cut map[cfgx.Edge]bool) bool {
-	if len(c.Fn.Blocks) == 0 {
-		return false
-	}
-	return cfgx.ReachAvoiding(c.Fn.Blocks[0], cut)[b]
-}
-
-// PassEdges computes the edges on which one of the atoms is known to hold,
-// including edges of flag tests whose flag is justified by the atoms.
-func (c *Checker) PassEdges(atoms []Atom) map[cfgx.Edge]bool {
+// directCut: edges on which one of the atoms holds by the branch condition itself.
+func (c *Checker) directCut(atoms []Atom) map[cfgx.Edge]bool {
 	cut := map[cfgx.Edge]bool{}
-	type flagIf struct {
-		b   *ssa.BasicBlock
-		phi *ssa.Phi
-		pol bool
-	}
-	var flags []flagIf
 	for _, b := range c.Fn.Blocks {
 		iff := cfgx.IfOf(b)
 		if iff == nil || len(b.Succs) != 2 {
-			continue
-		}
-		v := iff.Cond
-		pol := true
-		for {
-			if u, ok := v.(*ssa.UnOp); ok && u.Op == token.NOT {
-				v = u.X
-				pol = !pol
-				continue
-			}
-			break
-		}
-		if phi, ok := v.(*ssa.Phi); ok {
-			flags = append(flags, flagIf{b, phi, pol})
 			continue
 		}
 		p, ppol, ok := CondPred(c.Res, iff.Cond)
@@ -232,68 +162,320 @@ func (c *Checker) PassEdges(atoms []Atom) map[cfgx.Edge]bool {
 			continue
 		}
 		for _, a := range atoms {
-			// true edge: cond true => pred == ppol
-			if a.matches(p, ppol) {
-				cut[cfgx.Edge{From: b, To: b.Succs[0]}] = true
-			}
-			if a.matches(p, !ppol) {
-				cut[cfgx.Edge{From: b, To: b.Succs[1]}] = true
-			}
-		}
-	}
-	// flag closure to fixpoint
-	for changed := true; changed; {
-		changed = false
-		for _, f := range flags {
-			// true edge of `if cond`: cond true => phi == f.pol
-			for side, want := range []bool{f.pol, !f.pol} {
-				e := cfgx.Edge{From: f.b, To: f.b.Succs[side]}
-				if cut[e] {
+			m0, m1 := a.matches(p, ppol), a.matches(p, !ppol)
+			if (m0 || m1) && len(a.Req) > 0 {
+				okReq := true
+				for _, q := range a.Req {
+					if ok, _ := c.MustPass(b, q); !ok {
+						okReq = false
+					}
+				}
+				if !okReq {
 					continue
 				}
-				if c.flagOK(f.phi, want, atoms, cut, map[*ssa.Phi]bool{}) && c.flagCanBe(f.phi, want, map[*ssa.Phi]bool{}) {
-					cut[e] = true
-					changed = true
-				}
+			}
+			if m0 {
+				cut[cfgx.Edge{From: b, To: b.Succs[0]}] = true
+			}
+			if m1 {
+				cut[cfgx.Edge{From: b, To: b.Succs[1]}] = true
 			}
 		}
 	}
 	return cut
 }
 
-// flagCanBe: does the φ have at least one source of value `want` (otherwise
-// "justified" would be vacuous and every flag's dead side would count as a guard).
-func (c *Checker) flagCanBe(phi *ssa.Phi, want bool, vis map[*ssa.Phi]bool) bool {
-	if vis[phi] {
-		return false
-	}
-	vis[phi] = true
-	for _, e := range phi.Edges {
-		switch x := e.(type) {
-		case *ssa.Const:
-			if x.Value != nil && x.Value.Kind() == constant.Bool && constant.BoolVal(x.Value) == want {
-				return true
-			}
-		case *ssa.Phi:
-			if c.flagCanBe(x, want, vis) {
-				return true
-			}
-		default:
-			return true
+// PassEdges is kept for diagnostics: the direct pass edges.
+func (c *Checker) PassEdges(atoms []Atom) map[cfgx.Edge]bool { return c.directCut(atoms) }
+
+func stripNot(v ssa.Value) (ssa.Value, bool) {
+	pol := true
+	for {
+		if u, ok := v.(*ssa.UnOp); ok && u.Op == token.NOT {
+			v = u.X
+			pol = !pol
+			continue
 		}
+		return v, pol
+	}
+}
+
+func nillable(t types.Type) bool {
+	switch t.Underlying().(type) {
+	case *types.Pointer, *types.Slice, *types.Map, *types.Interface, *types.Signature, *types.Chan:
+		return true
 	}
 	return false
 }
 
-// MustPass: every path entry -> target block passes an edge where an atom
-// holds. On failure returns a witness path rendered as branch decisions.
+// nilCond evaluates conditions over a φ known to be nil on this path:
+// x == nil, x != nil, x.Empty(), len(x) == 0.
+func nilCond(v ssa.Value, val valuation) (bool, bool) {
+	isNil := func(x ssa.Value) bool {
+		if _, ok := x.(*ssa.Phi); ok {
+			return val[x] == -1 && !isBool(x)
+		}
+		return false
+	}
+	switch x := v.(type) {
+	case *ssa.BinOp:
+		if x.Op == token.EQL || x.Op == token.NEQ {
+			var other ssa.Value
+			if isNil(x.X) {
+				other = x.Y
+			} else if isNil(x.Y) {
+				other = x.X
+			}
+			if cv, ok := other.(*ssa.Const); ok && cv.Value == nil && nillable(cv.Type()) {
+				return x.Op == token.EQL, true
+			}
+		}
+	case *ssa.Call:
+		if sc := x.Call.StaticCallee(); sc != nil && sc.Name() == "Empty" && len(x.Call.Args) == 1 && isNil(x.Call.Args[0]) {
+			return true, true
+		}
+	}
+	return false, false
+}
+
+func isBool(v ssa.Value) bool {
+	bt, ok := v.Type().Underlying().(*types.Basic)
+	return ok && bt.Kind() == types.Bool
+}
+
+// tracked: boolean values whose truth is remembered along a path: φ of bools,
+// values flowing into such φ, and conditions tested by more than one branch.
+func (c *Checker) tracked() map[ssa.Value]bool {
+	t := map[ssa.Value]bool{}
+	uses := map[ssa.Value]int{}
+	for _, b := range c.Fn.Blocks {
+		for _, ins := range b.Instrs {
+			if phi, ok := ins.(*ssa.Phi); ok && !isBool(phi) && nillable(phi.Type()) {
+				for _, e := range phi.Edges {
+					if cv, isC := e.(*ssa.Const); isC && cv.Value == nil {
+						t[phi] = true
+					}
+				}
+			}
+			if phi, ok := ins.(*ssa.Phi); ok && isBool(phi) {
+				t[phi] = true
+				for _, e := range phi.Edges {
+					if _, isC := e.(*ssa.Const); !isC {
+						v, _ := stripNot(e)
+						t[v] = true
+					}
+				}
+			}
+		}
+		if iff := cfgx.IfOf(b); iff != nil {
+			v, _ := stripNot(iff.Cond)
+			uses[v]++
+		}
+	}
+	for v, n := range uses {
+		if n > 1 {
+			t[v] = true
+		}
+	}
+	return t
+}
+
+type pstate struct {
+	b   *ssa.BasicBlock
+	val string // canonical valuation
+}
+
+type valuation map[ssa.Value]int8 // 1 true, -1 false
+
+func (v valuation) key(order map[ssa.Value]int) string {
+	buf := make([]byte, len(order))
+	for i := range buf {
+		buf[i] = '.'
+	}
+	for k, x := range v {
+		if x > 0 {
+			buf[order[k]] = 'T'
+		} else if x < 0 {
+			buf[order[k]] = 'F'
+		}
+	}
+	return string(buf)
+}
+
+const maxStates = 20000
+
+// StateBound is the witness text returned when the search was cut off.
+const StateBound = "UNDECIDED: abstract-state bound exceeded"
+
+// MustPass: every feasible path entry -> target passes an edge where an atom
+// holds. Paths are explored over (block, valuation of tracked booleans), so
+// flags are expanded to the comparisons that set them and repeated tests of
+// one value are correlated. On failure the witness path is returned.
 func (c *Checker) MustPass(target *ssa.BasicBlock, atoms []Atom) (bool, []string) {
-	cut := c.PassEdges(atoms)
-	path := cfgx.PathAvoiding(c.Fn.Blocks[0], target, cut)
-	if path == nil {
+	ok, path, bound := c.search(target, atoms)
+	if ok {
 		return true, nil
 	}
+	if bound {
+		return false, []string{StateBound}
+	}
 	return false, c.RenderPath(path)
+}
+
+// Undecided reports whether the last search hit the state bound.
+func (c *Checker) search(target *ssa.BasicBlock, atoms []Atom) (bool, []*ssa.BasicBlock, bool) {
+	cut := c.directCut(atoms)
+	tr := c.tracked()
+	order := map[ssa.Value]int{}
+	for _, b := range c.Fn.Blocks {
+		for _, ins := range b.Instrs {
+			if v, ok := ins.(ssa.Value); ok && tr[v] {
+				order[v] = len(order)
+			}
+		}
+	}
+	for v := range tr {
+		if _, ok := order[v]; !ok {
+			order[v] = len(order)
+		}
+	}
+	type node struct {
+		b    *ssa.BasicBlock
+		val  valuation
+		prev *node
+	}
+	entry := c.Fn.Blocks[0]
+	start := &node{b: entry, val: valuation{}}
+	seen := map[pstate]bool{{entry, start.val.key(order)}: true}
+	q := []*node{start}
+	for len(q) > 0 {
+		n := q[0]
+		q = q[1:]
+		if n.b == target {
+			var rev []*ssa.BasicBlock
+			for x := n; x != nil; x = x.prev {
+				rev = append(rev, x.b)
+			}
+			for i, j := 0, len(rev)-1; i < j; i, j = i+1, j-1 {
+				rev[i], rev[j] = rev[j], rev[i]
+			}
+			return false, rev, false
+		}
+		if len(seen) > maxStates {
+			return false, nil, true
+		}
+		iff := cfgx.IfOf(n.b)
+		for si, s := range n.b.Succs {
+			e := cfgx.Edge{From: n.b, To: s}
+			if cut[e] {
+				continue
+			}
+			nv := valuation{}
+			for k, x := range n.val {
+				nv[k] = x
+			}
+			if iff != nil && len(n.b.Succs) == 2 {
+				v, pol := stripNot(iff.Cond)
+				truth := (si == 0) == pol // value of v on this edge
+				if cv, isC := v.(*ssa.Const); isC && cv.Value != nil && cv.Value.Kind() == constant.Bool {
+					if constant.BoolVal(cv.Value) != truth {
+						continue
+					}
+				}
+				if x, known := nv[v]; known && isBool(v) {
+					if (x > 0) != truth {
+						continue // infeasible: contradicts an earlier decision on the same value
+					}
+				}
+				if nt, known := nilCond(v, nv); known && nt != truth {
+					continue // infeasible: the tested value is the nil constant on this path
+				}
+				if tr[v] {
+					if truth {
+						nv[v] = 1
+					} else {
+						nv[v] = -1
+					}
+				}
+			}
+			// entering s: values defined in s are redefined
+			idx := -1
+			for i, p := range s.Preds {
+				if p == n.b {
+					idx = i
+				}
+			}
+			var phis []*ssa.Phi
+			for _, ins := range s.Instrs {
+				if v, ok := ins.(ssa.Value); ok && tr[v] {
+					if phi, ok := ins.(*ssa.Phi); ok {
+						phis = append(phis, phi)
+					} else {
+						delete(nv, v)
+					}
+				}
+			}
+			// parallel φ assignment from the old valuation
+			upd := map[ssa.Value]int8{}
+			infeasible := false
+			for _, phi := range phis {
+				if idx < 0 || idx >= len(phi.Edges) {
+					upd[phi] = 0
+					continue
+				}
+				o := phi.Edges[idx]
+				if !isBool(phi) {
+					if cv, isC := o.(*ssa.Const); isC && cv.Value == nil {
+						upd[phi] = -1
+					} else if op, isPhi := o.(*ssa.Phi); isPhi && nv[op] == -1 && !isBool(op) {
+						upd[phi] = -1
+					} else {
+						upd[phi] = 0
+					}
+					continue
+				}
+				if cv, isC := o.(*ssa.Const); isC {
+					if cv.Value != nil && cv.Value.Kind() == constant.Bool {
+						if constant.BoolVal(cv.Value) {
+							upd[phi] = 1
+						} else {
+							upd[phi] = -1
+						}
+					}
+					continue
+				}
+				ov, opol := stripNot(o)
+				if x, known := nv[ov]; known {
+					if (x > 0) == opol {
+						upd[phi] = 1
+					} else {
+						upd[phi] = -1
+					}
+				} else {
+					upd[phi] = 0
+				}
+			}
+			if infeasible {
+				continue
+			}
+			for k, x := range upd {
+				if x == 0 {
+					delete(nv, k)
+				} else {
+					nv[k] = x
+				}
+			}
+			// a φ that merely copies a computed boolean: when that boolean, being true/false, establishes an atom,
+			// the decision is taken at the test of the φ (handled below through aliasCut)
+			ps := pstate{s, nv.key(order)}
+			if seen[ps] {
+				continue
+			}
+			seen[ps] = true
+			q = append(q, &node{b: s, val: nv, prev: n})
+		}
+	}
+	return true, nil, false
 }
 
 // RenderPath prints the branch decisions along a block path.
